@@ -18,6 +18,7 @@ CLAIMED = {
     'C16': ('proof', 'point_difference_to_imps is proved equal to the official scale for every (unbounded) integer; monotonicity, oddness and range are lemmas over that contract; score_to_imp is proved by contract.', '4 (C16)'),
 }
 CLAIMED['C19'] = ('proof', 'Messages: every builder proved equal to a protocol-v18 spec and every parser proved to return the encoded value, one symbolic path per (seat, call / card / notation) covering ALL letter-case variants at once (letters as one-character atoms), the alert suffix with arbitrary blanks, hand texts of every card set, headers with unbounded board numbers, team names as opaque atoms; regexes are the source\'s own patterns run by a symbolic matcher with a per-call differential check against re. Framing: receive_message proved by loop invariant AND variant (termination; raises at end of stream), postcondition "bytes up to the first CR LF", and a sequence lemma. The variant obligation failed on the original tree (defect fixed by commit 0c50138).', '4 (C19)')
+CLAIMED['C12'] = ('proof', 'JsonLogWriter.write proved to append exactly one record equal to an independent format spec for symbolic inputs (any deal, auction and play of any length as lazy lists, opaque names/ids, optional dda), with the streaming framing (open / separator / close) as typestate postconditions; the published schema is compiled into a structural postcondition on that record; convert_board_log / convert_board_setting proved to rebuild the written values as value objects (field-by-field), str_to_contract over the complete contract domain. Document level: json.loads(json.dumps(v)) == v and the array framing are assumed laws (listed).', '4 (C12)')
 CLAIMED['C11'] = ('proof', 'Part (a) proved: relational lemma - an ObservedPlayingPhase built from the manager state at any seat, fed the play the manager accepted, accepts it too and agrees again on contract, declarer, turn, trick number, leaders, history, counts, own and dummy hand (both methods used by contract, contracts proved in the same run). Part (b) (network client mirrors) is not yet under contract: see evidence assumptions.', '4 (C11)')
 NA = {
     'C09': 'liveness over all thread schedules: contracts on sequential functions cannot express or decide it and no concurrent deductive verifier for Python exists here (DESIGN section 6)',
